@@ -137,9 +137,12 @@ func runOnce(sc *Scenario, o vsched.Options) (*vsched.Exec, Result) {
 	if e.Pruned || e.HarnessErr != "" {
 		return e, r
 	}
-	if final != nil {
-		r = final()
+	if final == nil {
+		// the body (thread 0) never returned: the harness is stuck, nothing was judged
+		e.HarnessErr = "scenario body did not run to its end (thread 0 blocked forever: " + e.Threads()[0].Pending() + ")"
+		return e, r
 	}
+	r = final()
 	if e.Failure != "" {
 		r.Violate("fail:"+firstWords(e.Failure, 6), "%s", e.Failure)
 	}
